@@ -285,6 +285,17 @@ def run(ctx):
                         if last in ('eq', 'ne', 'deref', 'as_ref', 'borrow', 'as_str', 'as_slice', 'as_bytes'):
                             continue
                         odd.append((FB, bb, nm))
+            # ... and nothing but field against field: a field compared with a constant (`creation == 0` as a wildcard) makes ==
+            # coarser than Hash and Ord just the same, whether it sits in a helper or inline
+            if not odd:
+                from ..families import comparator_calls as _cc
+                for it in eqi[0]['items']:
+                    for FB in bodies_of_fn(P, it):
+                        for bb, nm_, (ca, cb) in _cc(FB):
+                            if (ca[0] == 'const') != (cb[0] == 'const'):
+                                other_ = cb if ca[0] == 'const' else ca
+                                if isinstance(other_, tuple) and other_[0] == 'place' and other_[1] in (('arg', 1), ('arg', 2)):
+                                    odd.append((FB, bb, 'a comparison of the field `%s` with the constant %s' % (other_[2][-1] if other_[2] else '?', (ca if ca[0] == 'const' else cb)[1])))
             if odd:
                 FB, bb, nm = odd[0]
                 ctx.bad('C11.3-eq-hash-fields', short + ':eq-fieldwise', 'the hand-written == of %s is not plain field-wise equality (it calls %s): values it treats as equal can still differ for Hash and Ord, which compare the fields exactly'
